@@ -50,9 +50,9 @@ Proof.
        inversion HA; subst. right; right; left. rewrite map_app. apply in_or_app. right. left. reflexivity. }
   1: { rewrite Heql2, Heql1. apply A. assumption. }
   all: try (await_done A G5 q Hq id; fail).
-  await_old A q Hq; [left; assumption|right; left; assumption| |right; right; right; eexists; eassumption].
-  right; right; left. apply In_fst_remove_id; [|assumption].
-  intros ->. rewrite Nat.eqb_refl in E. discriminate.
+  all: await_old A q Hq; [left; assumption|right; left; assumption| |right; right; right; eexists; eassumption].
+  all: right; right; left; apply In_fst_remove_id; [|assumption].
+  all: intros ->; rewrite Nat.eqb_refl in E; discriminate.
 Qed.
 
 (* ---- S1-free runs: every waiting request fits the capacity ---------------------------------------- *)
